@@ -112,7 +112,7 @@ def run_unit(ctx, u):
     q = ctx.tier == "quick"
     rng = random.Random(f"c08-{ctx.seed}-{u['unit']}")
     g = torch.Generator().manual_seed(seed_for("c08", ctx.seed, u["unit"]))
-    shapes = [(64,), (1, 64), (5, 64), (3, 4, 32), (2, 3, 4, 8)]
+    shapes = [(64,), (1, 64), (5, 64), (3, 4, 32), (2, 3, 4, 8), (1, 4, 16), (1, 3, 4, 4)]
     targets = [1e-3, 0.1, 1.0, 7.0, 1e3]
     scales = [1e-2, 1.0, 30.0, 1e4]
     ncase = 0
@@ -125,7 +125,9 @@ def run_unit(ctx, u):
                         yield shape, cplx, fam, sc, signal(fam, shape, cplx, sc, g)
 
     def lay(shape):
-        return {1: "1-D", 2: "batch-of-1" if shape[0] == 1 else "(B,N)", 3: "(B,A,N)", 4: "(B,A,H,W)"}[len(shape)]
+        if shape[0] == 1 and len(shape) > 1:
+            return "batch-of-1" if len(shape) == 2 else f"batch-of-1,{len(shape)}-D"
+        return {1: "1-D", 2: "(B,N)", 3: "(B,A,N)", 4: "(B,A,H,W)"}[len(shape)]
 
     if kind in ("total", "average"):
         for tgt in targets:
@@ -211,7 +213,7 @@ def run_unit(ctx, u):
 
     if kind == "papr":
         for lim in (1.5, 2.0, 3.0, 6.0, 10.0):
-            for shape, cplx, fam, sc, x in cases([(64,), (1, 64), (4, 64), (2, 3, 32)] if q else shapes):
+            for shape, cplx, fam, sc, x in cases([(64,), (1, 64), (4, 64), (2, 3, 32), (1, 4, 16)] if q else shapes):
                 c = K.PAPRConstraint(max_papr=lim)
                 cfgc = f"{lay(shape)},{'complex' if cplx else 'real'}"
                 snap = x.clone()
